@@ -5,7 +5,9 @@ Implementation under test: the real `Context.request(msg)` -> `BlockwiseRequest`
 `RequestInterface` registered in the context (no sockets, no time).  Every block request that
 reaches the interface is observed in its serialised form (options encoded and decoded again)
 and answered by the independent RFC 7959 reference server of `harness/c05_refserver.py`
-(conforming with size reductions at any block, or misbehaving once).
+(conforming with size reductions at any block, or deviating once: violating a sequencing rule,
+or ending the transfer itself with one complete response).  Requests are sent with and without
+Observe:0; the server may put an Observe option into intermediate 2.31 acknowledgements.
 
 Correspondence (model ~ code):
   R  Lean `runClient` is given the recorded responses and must reproduce the wire sequence of
@@ -16,6 +18,9 @@ Correspondence (model ~ code):
      the server recorded;
   B  `BlockwiseTuple.size/start/is_valid_for_payload_size/reduced_to` against `BlockOpt`.
 Oracle (independent reading of the property over what the implementation did): see `oracle`.
+There is no class of "tolerated" deviations: a server is conforming (both bodies intact), violates
+a sequencing rule (the request ends with an aiocoap error), or ends the transfer with ONE response
+that is complete in CoAP terms (the caller gets exactly that response, nothing more is uploaded).
 """
 import asyncio
 import logging
@@ -25,18 +30,26 @@ import c05_refserver as ref
 
 RULE = ("Cases = (request body length, response body length, client maximum size exponent, "
         "maximum payload size, per-exchange size exponents chosen by the reference server, "
-        "optional misbehaviour). Corpus first; then the full boundary table: body lengths "
+        "optional deviation of the server, optional Observe:0 in the request). Corpus first; then the full "
+        "boundary table: body lengths "
         "0,1,15,16,17,...,1023,1024,1025,1123,1124,1125,2047,2048,2049,multi-kB x client szx 0..6 "
         "x reduction schedules for uploads and x server szx 0..6 x client szx for downloads, every "
-        "misbehaviour kind (19, incl. a first answer labelled as a later LAST block and a response "
-        "code that changes in mid-download) at first/middle/last position, BlockwiseTuple arithmetic on all "
+        "deviation kind (27: 16 sequencing violations incl. 2.31 without Block1 and a Block2 block larger than "
+        "requested, 6 single complete responses that end the transfer, 3 harmless oddities incl. Observe in an "
+        "intermediate 2.31, silence) at first/middle/last position, requests with Observe:0 whose upload needs "
+        "several blocks x server putting Observe into the n-th / every 2.31 / the final response, "
+        "BlockwiseTuple arithmetic on all "
         "(szx, max) pairs; then random cases from the seeded PRNG (lengths drawn around block "
-        "boundaries, random per-block reductions, <= 40 % misbehaving). Non-trivial: at least two "
+        "boundaries, random per-block reductions, <= 40 % deviating). Non-trivial: at least two "
         "block exchanges happened; distinct by the full case description.")
 TRUSTED = ["harness/c05_refserver.py (independent RFC 7959 reference server) and the fake "
            "RequestInterface/EndpointAddress of harness/props/C05.py"]
-ASSUMPTIONS = ["size exponent 7 (BERT) does not occur (UDP); no Observe option; the application "
+ASSUMPTIONS = ["size exponent 7 (BERT) does not occur (UDP); the application "
                "does not preset Block1/Block2 options",
+               "requests carrying Observe:0 are run through the same correspondence and oracle (the Lean client "
+               "machine has no Observe option: it claims that the option has no influence on the block requests "
+               "and on the response, which is what is compared); what an observation delivers AFTER the first "
+               "response is judged by the oracle-only level harness/c05_observe.py",
                "every block request gets at most one response (loss/duplication of single "
                "exchanges is the message layer's job: C03/C04)",
                "a changed representation is distinguishable by its ETag"]
@@ -118,6 +131,8 @@ class World:
             tmp.opt.block2 = reply.block2
         if reply.etag is not None:
             tmp.opt.etag = reply.etag
+        if reply.observe is not None:
+            tmp.opt.observe = reply.observe
         msg = self.Message(code=self.Code(reply.code), payload=reply.payload)
         msg.opt.decode(tmp.opt.encode())
         msg.remote = remote
@@ -136,13 +151,17 @@ class World:
         # a response's remote is a new address object of the same transport (default maximum
         # exponent, same maximum payload size) or the very object of the request
         remote = self.Remote(None, req.remote.maximum_payload_size) if self.fresh_remote else req.remote
-        pipe.add_response(self.to_message(reply, remote), is_last=True)
+        # like the token manager: a response with an Observe option to a request with one is not the last
+        is_last = reply.observe is None or req.opt.observe is None
+        pipe.add_response(self.to_message(reply, remote), is_last=is_last)
 
     # -- one transfer ------------------------------------------------------------------------
     async def _transfer(self, case):
         msg = self.Message(code=self.Code(CODES[case.get("method", "PUT")]),
                            payload=ref.pattern(case["plen"], case["pseed"]),
                            uri_path=("c05", "res"))
+        if case.get("observe"):
+            msg.opt.observe = 0
         msg.remote = self.Remote(case["szx0"], case["mps"])
         self.stalled = self.loop.create_future()
         request = self.ctx.request(msg)
@@ -153,8 +172,12 @@ class World:
             await asyncio.sleep(0)
             return ("pending",)
         exc = fut.exception()
-        # let the runner task finish
+        # let the runner task finish; an observation that was established is given up
         await asyncio.sleep(0)
+        if request.observation is not None and not request.observation.cancelled:
+            request.observation.cancel()
+        for _ in range(3):
+            await asyncio.sleep(0)
         if exc is not None:
             return ("err", type(exc).__name__, isinstance(exc, self.error.Error))
         r = fut.result()
@@ -164,7 +187,7 @@ class World:
         etag = None if case["etag"] is None else bytes.fromhex(case["etag"])
         self.server = ref.RefServer(ref.pattern(case["rlen"], case["rseed"]), etag, case["code"],
                                     case["choices"], case["default"], case.get("limit"),
-                                    case.get("mis"))
+                                    case.get("mis"), case.get("obs_final"))
         self.reqs, self.replies = [], []
         self.fresh_remote = case.get("fresh_remote", True)
         outcome = self.loop.run_until_complete(self._transfer(case))
@@ -298,10 +321,22 @@ def oracle(case, obs):
             return ("Block2 request %d: NUM %d x size %d = %d but %d bytes were received so far"
                     % (i, num, 16 << szx, num * (16 << szx), got)), "wire:b2-offset"
         if prior[-1].block2 is not None and szx > prior[-1].block2[2]:
-            return "Block2 request %d: exponent %d above the server's last %d" % (i, szx, prior[-1].block2[2]), "wire:b2-szx-grows"
+            return "Block2 request %d: exponent %d above the server's last %d" % (i, szx, prior[-1].block2[2]), "wire:b2-szx-above-server"
+        # "the size exponent never grows", literally, along the client's own Block2 requests
+        if i > 0 and szx > b2_reqs[i - 1][1][2]:
+            return ("Block2 request %d: size exponent grew from %d to %d"
+                    % (i, b2_reqs[i - 1][1][2], szx)), "wire:b2-szx-grows"
+        if observe is not None:
+            return "Block2 request %d for a later block carries an Observe option" % i, "wire:b2-observe"
+    if case.get("observe"):
+        for i, v in enumerate(b1_reqs):
+            if v[6] != 0:
+                return "request %d of an Observe:0 request does not carry Observe:0" % i, "wire:b1-observe"
 
     # --- bodies
-    if kind in ref.MUST_SUCCEED or (kind in ref.MUST_ERROR and not srv.triggered):
+    etag = None if case["etag"] is None else bytes.fromhex(case["etag"])
+    if kind in ref.MUST_SUCCEED or not srv.triggered:
+        # a conforming server (possibly with harmless oddities): both bodies intact
         if out[0] != "ok":
             return "conforming server (%s) but the request ended with %r" % (kind, out[:2]), "conforming-failed"
         if srv.recorded != [payload]:
@@ -310,7 +345,7 @@ def oracle(case, obs):
         if out[3] != rep:
             return ("returned body (%d bytes) is not the server's representation (%d bytes)"
                     % (len(out[3]), len(rep))), "response-body-differs"
-        if out[1] != case["code"] or out[2] != (None if case["etag"] is None else bytes.fromhex(case["etag"])):
+        if out[1] != case["code"] or out[2] != etag:
             return "returned code/ETag %r differ from the server's" % (out[1:3],), "response-meta-differs"
         return "", None
     if kind in ref.MUST_ERROR:
@@ -318,27 +353,38 @@ def oracle(case, obs):
             what = "the server's body" if out[3] == rep else (
                 "a strict prefix" if rep.startswith(out[3]) else
                 "a fragment of the body" if out[3] and out[3] in rep else "a mixed/duplicated body")
-            return ("server misbehaved (%s) but the request returned a body (%d bytes: %s) instead of an error"
-                    % (kind, len(out[3]), what)), "misbehaviour-accepted:" + kind
+            return ("server misbehaved (%s) but the request returned a response (code %d, %d bytes: %s) instead of an error"
+                    % (kind, out[1], len(out[3]), what)), "misbehaviour-accepted:" + kind
         if out[0] == "pending":
             return "server misbehaved (%s) and the request neither failed nor finished" % kind, "misbehaviour-hangs:" + kind
         return "", None
-    # tolerated deviations: the client hands on a response of the server. It must be exactly
-    # one of the server's responses or the complete representation, never a partial assembly.
-    if out[0] == "ok":
-        if out[3] != rep and all(out[3] != r.payload for r in obs["replies"]):
-            return ("returned body is neither the representation nor a single response of the server (%s)"
-                    % kind), "partial-assembly:" + str(kind)
-    if out[0] == "pending" and kind != "stall":
-        return "request neither failed nor finished (%s)" % kind, "hangs:" + str(kind)
-    return "", None
+    if kind in ref.EXACT_REPLY:
+        # the server ended the transfer with ONE response that is complete by itself (see c05_refserver.py for
+        # what each kind is).  The caller gets exactly that response: its code, its ETag, its payload -- not the
+        # representation assembled so far, not a combination; and nothing more is uploaded after it.
+        if out[0] != "ok":
+            return ("the server ended the transfer with a complete response (%s) but the request ended with %r"
+                    % (kind, out[:2])), "single-response-lost:" + kind
+        if tuple(out[1:4]) != srv.expected:
+            return ("the server ended the transfer with the response (code %d, ETag %r, %d bytes) (%s) but the caller "
+                    "got (code %d, ETag %r, %d bytes)" % (srv.expected[0], srv.expected[1], len(srv.expected[2]), kind,
+                                                         out[1], out[2], len(out[3]))), "single-response-altered:" + kind
+        if kind in ref.ENDS_UPLOAD and any(v[1] is None for v in obs["reqs"][srv.trigger_index + 1:]):
+            return "the upload went on after the server's final answer (%s)" % kind, "upload-continued:" + kind
+        return "", None
+    if kind == "stall":
+        if out[0] != "pending":
+            return "the server fell silent but the request ended with %r" % (out[:2],), "stall-resolved"
+        return "", None
+    raise HarnessError("oracle has no rule for server kind %r" % (kind,))
 
 
 # ------------------------------------------------------------------------------------------
 # case generation
 # ------------------------------------------------------------------------------------------
 def mk(plen=0, rlen=0, szx0=6, mps=1124, choices=(), default=(6, False), etag="c0ffee", code=69,
-       mis=None, limit=None, pseed=1, rseed=2, method="PUT", fresh_remote=True):
+       mis=None, limit=None, pseed=1, rseed=2, method="PUT", fresh_remote=True, observe=False,
+       obs_final=None):
     c = {"plen": plen, "pseed": pseed, "rlen": rlen, "rseed": rseed, "etag": etag, "code": code,
          "szx0": szx0, "mps": mps, "choices": [list(x) for x in choices], "default": list(default),
          "method": method, "fresh_remote": fresh_remote}
@@ -346,6 +392,10 @@ def mk(plen=0, rlen=0, szx0=6, mps=1124, choices=(), default=(6, False), etag="c
         c["mis"] = mis
     if limit is not None:
         c["limit"] = limit
+    if observe:
+        c["observe"] = True          # the application request carries Observe:0
+        if obs_final is not None:
+            c["obs_final"] = obs_final   # Observe value of the server's final response (None: not observable)
     return c
 
 
@@ -424,6 +474,50 @@ def boundary_cases():
                                 mis={"kind": "code_change", "n": n % 2, "code": code, "diag": diag}))
                 cases.append(mk(plen=40, rlen=100, szx0=1, default=(0, False), method="POST",
                                 mis={"kind": "code_change", "n": n, "code": code, "diag": diag}))
+    # 2.31 Continue without Block1 option: after every block of a 3-block upload (incl. the final one), to an
+    # unfragmented request; a final code without the option after every non-final block (the server ignores Block1)
+    for (L, szx0) in ((48, 0), (3072, 6), (100, 2), (10, 6), (16, 0)):
+        for n in (0, 1, 2, 3):
+            cases.append(mk(plen=L, rlen=7, szx0=szx0, default=(szx0, False), code=68,
+                            mis={"kind": "continue_no_block1", "n": n}))
+            for code in (68, 65, 69):
+                cases.append(mk(plen=L, rlen=7 if code != 69 else 100, szx0=szx0, default=(szx0, False), code=code,
+                                mis={"kind": "ignore_block1", "n": n}))
+            for code in (136, 141, 128, 160):
+                cases.append(mk(plen=L, rlen=7, szx0=szx0, default=(szx0, False), code=68,
+                                mis={"kind": "fail_mid_noopt", "n": n, "code": code, "diag": n * 5}))
+    # a Block2 block larger than requested, wherever the offset allows it (the audit's input first: 400 bytes,
+    # requests at szx 0, the block at offset 64 comes as a 64-byte block)
+    for by in (1, 2, 3, 6):
+        for n in (0, 1, 2):
+            for (R, szx0, ssz) in ((400, 6, 0), (400, 0, 0), (3000, 2, 6), (3000, 6, 3), (5000, 5, 5)):
+                cases.append(mk(plen=0, rlen=R, szx0=szx0, default=(ssz, False), method="GET",
+                                mis={"kind": "b2_szx_grows", "n": n, "by": by}))
+                cases.append(mk(plen=40, rlen=R, szx0=szx0, default=(ssz, False), method="POST", etag=None,
+                                mis={"kind": "b2_szx_grows", "n": n, "by": by}))
+    # a follow-up block answered by a complete response of its own: at every block
+    for n in (0, 1, 2, 3):
+        for (R, szx0, ssz) in ((3000, 6, 6), (100, 6, 0), (100, 1, 4)):
+            for kind in ("drop_block2", "mid_404"):
+                cases.append(mk(plen=0, rlen=R, szx0=szx0, default=(ssz, False), method="GET",
+                                mis={"kind": kind, "n": n}))
+    # requests with Observe:0 whose upload needs several blocks (FETCH) / none (GET); the server puts an Observe
+    # option into the n-th / every intermediate 2.31 / none, and accepts the observation in the end or not
+    for (L, R, szx0, ssz) in ((3072, 6, 6, 6), (48, 100, 0, 0), (100, 2049, 2, 6), (2049, 33, 6, 3), (0, 100, 6, 1),
+                              (10, 10, 6, 6)):
+        for obs_final in (None, 5):
+            cases.append(mk(plen=L, rlen=R, szx0=szx0, default=(ssz, False), method="FETCH" if L else "GET",
+                            observe=True, obs_final=obs_final))
+            for m in ({"n": 0}, {"n": 1}, {"all": True}, {"n": 0, "oval": 0}, {"all": True, "oval": 1 << 23}):
+                cases.append(mk(plen=L, rlen=R, szx0=szx0, default=(ssz, False), method="FETCH" if L else "GET",
+                                observe=True, obs_final=obs_final, mis=dict(kind="observe_continue", **m)))
+            # ... and sequencing violations / single responses in an observing request
+            for kind in ("continue_no_block1", "wrongnum1", "ignore_block1", "etag_change", "drop_block2"):
+                cases.append(mk(plen=L, rlen=R, szx0=szx0, default=(ssz, False), method="FETCH" if L else "GET",
+                                observe=True, obs_final=obs_final, mis={"kind": kind, "n": 1}))
+    # the server puts Observe into a 2.31 although the request did not ask for it
+    for n in (0, 1):
+        cases.append(mk(plen=3072, rlen=6, szx0=6, method="FETCH", mis={"kind": "observe_continue", "n": n}))
     for cut in (0, 1, 14, 15):
         for n in (0, 1, 2):
             cases.append(mk(plen=0, rlen=100, szx0=6, default=(0, False), method="GET",
@@ -491,12 +585,26 @@ def random_case(rng):
             if kind == "code_change":
                 mis["code"] = rng.choice([132, 132, 128, 160, 163, 67, 65, 68])
                 mis["diag"] = rng.random() < 0.5
-    return mk(plen=plen, rlen=rlen, szx0=szx0, mps=rng.choice([1124, 1124, 1124, 1024, 1200]),
+            if kind == "b2_szx_grows":
+                mis["by"] = rng.choice([1, 1, 2, 3, 6])
+            if kind == "fail_mid_noopt":
+                mis["code"] = rng.choice([136, 141, 128, 160])
+                mis["diag"] = rng.randrange(0, 11)
+            if kind == "observe_continue":
+                mis["oval"] = rng.choice([0, 1, 7, 1 << 23])
+                if rng.random() < 0.4:
+                    mis["all"] = True
+    observe = rng.random() < (0.8 if mis and mis["kind"] == "observe_continue" else 0.15)
+    method = rng.choice(["PUT", "POST", "FETCH", "GET"])
+    if observe:
+        method = "FETCH" if plen else "GET"
+    return mk(observe=observe, obs_final=rng.choice([None, None, 1, 77]),
+              plen=plen, rlen=rlen, szx0=szx0, mps=rng.choice([1124, 1124, 1124, 1024, 1200]),
               choices=choices, default=(min(cur, ssz), rng.random() < 0.3),
               etag=rng.choice([None, "01", "c0ffee", "0102030405060708"]),
               code=rng.choice([69, 68, 65, 67, 69]), mis=mis, limit=limit,
               pseed=rng.randrange(1 << 30), rseed=rng.randrange(1 << 30),
-              method=rng.choice(["PUT", "POST", "FETCH", "GET"]), fresh_remote=rng.random() < 0.7)
+              method=method, fresh_remote=rng.random() < 0.7)
 
 
 # ------------------------------------------------------------------------------------------
@@ -550,6 +658,10 @@ def run(env, rep):
                     rep.count("triggered:" + kind)
             rep.count("outcome=" + (obs["outcome"][0] if obs["outcome"][0] != "err" else "err:" + obs["outcome"][1]))
             rep.count("client-szx=%d" % case["szx0"])
+            if case.get("observe"):
+                rep.count("request-with-observe:final=" + ("observable" if case.get("obs_final") is not None else "plain"))
+                if any(r.observe is not None and r.code == ref.CONTINUE for r in obs["replies"]):
+                    rep.count("observe-in-intermediate-2.31")
             rep.count("exchanges=" + ("0-1" if nex < 2 else "2-8" if nex <= 8 else "9-64" if nex <= 64 else "65+"))
             b1n = sum(1 for v in obs["reqs"] if v[0] is not None)
             b2n = sum(1 for v in obs["reqs"] if v[1] is not None)
@@ -579,7 +691,9 @@ def run(env, rep):
         # coverage gate on what the generator/reference server did (never on what the
         # implementation answered)
         for need in (["server=conforming", "upload-size-reduced-midway", "download-size-reduced-midway",
-                      "upload=unfragmented", "upload=blockwise", "download=single", "download=blockwise"]
+                      "upload=unfragmented", "upload=blockwise", "download=single", "download=blockwise",
+                      "request-with-observe:final=observable", "request-with-observe:final=plain",
+                      "observe-in-intermediate-2.31"]
                      + ["triggered:" + k for k in ref.KINDS]):
             if not rep.hist.get(need):
                 raise HarnessError("generator never produced " + need)
